@@ -6,15 +6,16 @@ import os
 
 from harness.core import pool, tb
 
-PROOF_MODULE = ["OdeVerif.Proofs.C14", "OdeVerif.Proofs.RefineStiffness", "OdeVerif.Proofs.RefinePartition", "OdeVerif.Proofs.RefineStep"]
-GENERATED = ["DrawDecision", "Constants", "PyStiffness", "PyPartition", "PyStep"]
+PROOF_MODULE = ["OdeVerif.Proofs.C14", "OdeVerif.Proofs.RefineStiffness", "OdeVerif.Proofs.RefinePartition", "OdeVerif.Proofs.RefineStep", "OdeVerif.Proofs.RefineTesterArgs", "OdeVerif.Proofs.RefineBenchmark"]
+GENERATED = ["DrawDecision", "Constants", "PyStiffness", "PyPartition", "PyStep", "PyTesterArgs", "PyBenchmark"]
 THEOREMS = ["OdeVerif.C14.drawDecision_table", "OdeVerif.C14.drawDecision_clauses", "OdeVerif.C14.drawDecision_defaults",
             "OdeVerif.C14.drawDecision_args", "OdeVerif.C14.solverName_suffix", "OdeVerif.C14.solverName_none",
             "OdeVerif.C14.benchmarks_same_stimulus", "OdeVerif.C14.benchmarks_reproducible",
             "OdeVerif.C14.benchmarks_unfair_without_python_seed",
             "OdeVerif.Refine.checkStiffness_spec", "OdeVerif.Refine.recommendation_documented", "OdeVerif.Refine.no_recommendation_without_benchmark",
             "OdeVerif.Refine.solverPartition_names",
-            "OdeVerif.Refine.numericalJacobian_entry", "OdeVerif.Refine.stepLocals_indep_stale"]
+            "OdeVerif.Refine.numericalJacobian_entry", "OdeVerif.Refine.stepLocals_indep_stale",
+            "OdeVerif.Refine.testerKwargs_numeric", "OdeVerif.Refine.testerKwargs_passthrough", "OdeVerif.Refine.evaluateIntegrator_trace", "OdeVerif.Refine.evaluateIntegrator_same_protocol"]
 LEVEL = "proof"
 EPS = 2.220446049250313e-16
 
